@@ -146,7 +146,8 @@ def new (R : Type) [Scalar R] (ce : CtorEnv) (raw : RawParameters) : Except Err 
     let given (k : Str) : Bool := p.given.contains k || raw.globals.contains k
     if given (S "ellps_0") && given (S "ellps_1") then
       let p1 :=
-        if !given (S "ellps") then
+        -- (the contexts hand a default `ellps` down to every step: only the step's own text counts here)
+        if !p.given.contains (S "ellps") then
           match p.text? (S "ellps_0") with
           | some e0 => Except.ok (p.setText (S "ellps") e0)
           | none => Except.error Err.missingParam   -- unreachable: the gamut has a default
